@@ -93,12 +93,14 @@ func (s *respSession) Fetch(w *imapserver.FetchWriter, numSet imap.NumSet, optio
 				wc := rw.WriteBodySection(it.sec, int64(len(it.data)))
 				respWriteChunks(wc.Write, it.data, sc.chunk)
 				if err := wc.Close(); err != nil {
+					rw.Close() // "FetchResponseWriter.Close must be called": it releases the connection's encoder
 					return err
 				}
 			case "bin":
 				wc := rw.WriteBinarySection(it.bin, int64(len(it.data)))
 				respWriteChunks(wc.Write, it.data, sc.chunk)
 				if err := wc.Close(); err != nil {
+					rw.Close() // "FetchResponseWriter.Close must be called": it releases the connection's encoder
 					return err
 				}
 			case "binsize":
